@@ -2567,6 +2567,43 @@ SERDE = ["<pasfmt::_::deserialize::__Visitor as serde::de::Visitor>::visit_map",
          "pasfmt::_::<impl serde::ser::Serialize for pasfmt::FormattingConfig>::serialize"]  # derived Serialize under the __demo feature
 
 
+def _conversion_rows_normalised(rows):
+    """The rows of the conversion's decision table as (constraints, rendered result), up to identities that do not depend on the form the
+    code is written in: a row whose constraint says that a *constant* variant is another variant (`Soft is Hard`: a match on a value built
+    two lines above, the correlation of the two matches) is infeasible and dropped; `checked_mul(x, 1)` is `Some(x)` (its None row is
+    dropped); the pair of rows `checked_mul(a, b) is Some -> ..@Some.0` / `is None -> 255` in a u8 position is `saturating_mul(a, b)`."""
+    out = []
+    for cons, res in rows:
+        r = render(res)
+        if any(c[0] == "is" and re.fullmatch(r"[A-Z][A-Za-z0-9]*", str(c[1])) and str(c[1]) != str(c[2]) for c in cons):
+            continue
+        if any(c[0] == "is" and re.fullmatch(r"checked_mul\([^()]*,1\)", str(c[1])) and c[2] == "None" for c in cons):
+            continue
+        r = re.sub(r"checked_mul\(([^()]*),1\)@Some\.0", r"\1", r)
+        cons = [c for c in cons if not (c[0] == "is" and (re.fullmatch(r"[A-Z][A-Za-z0-9]*", str(c[1])) or re.fullmatch(r"checked_mul\([^()]*,1\)", str(c[1]))))]
+        out.append((cons, r))
+    merged, used = [], set()
+    for i, (ci, ri) in enumerate(out):
+        if i in used:
+            continue
+        some = [c for c in ci if c[0] == "is" and str(c[1]).startswith("checked_mul(") and c[2] == "Some"]
+        hit = None
+        if len(some) == 1:
+            key = str(some[0][1])
+            rest_i = [c for c in ci if c is not some[0]]
+            for j, (cj, rj) in enumerate(out):
+                none = [c for c in cj if c[0] == "is" and str(c[1]) == key and c[2] == "None"]
+                if j != i and j not in used and len(none) == 1 and [c for c in cj if c is not none[0]] == rest_i and ri.replace(key + "@Some.0", "255") == rj:
+                    hit = j
+                    break
+            if hit is not None:
+                used.add(hit)
+                merged.append((rest_i, ri.replace(key + "@Some.0", "saturating_mul(" + key[len("checked_mul("):])))
+                continue
+        merged.append((ci, ri))
+    return merged
+
+
 def check_c10(prog, rep, tier, cfg):
     # C10.d — whether a literal had to be re-indented (which depends on the indentation settings and on the source) must not change from
     # which line its logical line is wrapped (shared with C03.i)
@@ -2584,11 +2621,11 @@ def check_c10(prog, rep, tier, cfg):
     cv = prog.body(CONV_RS)
     if rep.check(cv is not None, R, "anchor:conversion", "From<&FormattingConfig> for ReconstructionSettings not found"):
         t = Table(prog, cv, inline=2, opaque=("new", "into", "from"))          # the per-component computations may live in small helpers of the configuration type
-        good = len(t.rows) == 2
+        trows = _conversion_rows_normalised(t.rows)
+        good = len(trows) == 2
         rows = []
-        for cons, res in t.rows:
+        for cons, r in trows:
             ut = [c[2] for c in cons if c[0] == "cond" and "use_tabs" in c[1]]
-            r = render(res)
             r = re.sub(r"(call:|sym:)?saturating_mul\((place:)?(arg1\.continuation_indents),1\)", r"\3", r)      # x.saturating_mul(1) == x
             rows.append((ut, r))
             if ut and ut[0] == 0:
